@@ -45,6 +45,7 @@ STAGES = {
     "C04": [S("cuts", "^TestC04$", quick=40, thorough=60, shards=(6, 16), timeout=("15m", "120m"), shrinktime="60s")],
     "C06": [S("codes", "^TestC06$", shards=(8, 16)),
             S("mixed", "^TestC06Mixed$", quick=3000, thorough=20000, shards=(2, 16))],
+    "C20": [S("histories", "^TestC20$", quick=120, thorough=1500, shards=(6, 16))],
 }
 
 LEVELS = {
